@@ -44,9 +44,10 @@ def scan_forbidden():
     return bad
 
 
-EXTRA_MODULES = {"C01": ["H1"], "C02": ["H1"], "C06": ["C06Refine", "H1"], "C07": ["C07b", "H1"], "C12": ["H1"], "C14": ["H1"],
-                 "C16": ["C16b", "H1"], "C17": ["C17b"]}
-SHARED_MODULES = {"H1"}                     # modules holding theorems of several properties: only the `Cnn_…` ones count for Cnn     # further theorem files that belong to a property
+EXTRA_MODULES = {"C01": ["H1", "Ctl"], "C02": ["H1", "Ctl"], "C04": ["Ctl"], "C05": ["Ctl"], "C06": ["C06Refine", "H1", "Ctl"], "C07": ["C07b", "H1", "Ctl"],
+                 "C09": ["Ctl"], "C10": ["Ctl"], "C11": ["Ctl"], "C12": ["H1", "Ctl"], "C14": ["H1", "Ctl"], "C15": ["Ctl"],
+                 "C16": ["C16b", "H1"], "C17": ["C17b", "Ctl"]}
+SHARED_MODULES = {"H1", "Ctl"}                     # modules holding theorems of several properties: only the `Cnn_…` ones count for Cnn     # further theorem files that belong to a property
 
 
 def prop_modules(prop_id):
@@ -61,7 +62,7 @@ def theorem_names(prop_id):
         txt = re.sub(r"/-.*?-/", "", txt, flags=re.S)
         found = re.findall(r"^theorem\s+([A-Za-z0-9_.']+)", txt, flags=re.M)
         if m in SHARED_MODULES:
-            found = [n for n in found if n.startswith(prop_id + "_")]
+            found = [n for n in found if n.startswith(prop_id + "_") or n.startswith("Ctl_")]   # Ctl_…: the regenerated control skeleton is the modelled one (counts for every property that imports it)
         names += found
     return names
 
